@@ -369,6 +369,12 @@ func (s *Server) newSocket(
 		socket.close(ReasonTransportError, err)
 		return nil
 	}
+	// Close() may have swept the store between the `closed` check in ServeHTTP
+	// and the store.set above. Re-check so that this socket is not left behind.
+	if s.IsClosed() {
+		socket.Close()
+		return nil
+	}
 	return socket
 }
 
